@@ -4,7 +4,7 @@ import collections
 
 from checks.common import UdpCheck, Monitor, swarm_cfg, PoolGuard
 from world.attacker import Attacker
-from world.udpworld import ConnectionStatus, PacketType, client_addr, sig
+from world.udpworld import accepted, ConnectionStatus, PacketType, client_addr, sig
 
 
 class LifecycleMonitor(Monitor):
@@ -25,7 +25,7 @@ class LifecycleMonitor(Monitor):
         self.accepted = collections.defaultdict(list)     # id(server conn) -> [(t, sig)] of application messages it accepted
 
     def post_recv(self, conn, hdr, datagram, pre, result):
-        if result is True and conn.isServer:
+        if accepted(result) and conn.isServer:
             self.last_accept[id(conn)] = self.w.k.now
             self.accept_log[id(conn)].append(self.w.k.now)
             if hdr.pkt_type.value == PacketType.CHALLENGE_RESP.value:
